@@ -158,6 +158,13 @@ pub fn bfs<G: Graph>(
             break;
         }
 
+        // states created by the last level before a depth bound are never expanded: count them
+        // (they are checked on the edge that creates them) but do not keep the live objects
+        let last_level = opts.max_depth.map(|md| depth + 1 >= md).unwrap_or(false);
+        let leaf_states = AtomicU64::new(0);
+        let fresh_total = AtomicU64::new(0);
+        let overflow = std::sync::atomic::AtomicBool::new(false);
+        let hard_cap = opts.max_states.map(|m| m.saturating_mul(2));
         // expand one level in parallel
         let results: Vec<(usize, Vec<(G::Action, Vec<G::State>, Vec<(String, String)>)>, u64, u64)> = frontier
             .par_iter()
@@ -165,6 +172,9 @@ pub fn bfs<G: Graph>(
                 let mut edges = Vec::new();
                 let mut trans = 0u64;
                 let mut impl_steps = 0u64;
+                if overflow.load(Ordering::Relaxed) {
+                    return (*idx, edges, trans, impl_steps);
+                }
                 for a in g.actions(st) {
                     let out = g.step(st, &a);
                     trans += 1;
@@ -173,7 +183,19 @@ pub fn bfs<G: Graph>(
                     for s in out.succ {
                         let k = key_of(&s);
                         if visited.insert(k) {
-                            fresh.push(s);
+                            if last_level {
+                                leaf_states.fetch_add(1, Ordering::Relaxed);
+                            } else {
+                                fresh.push(s);
+                            }
+                        }
+                    }
+                    if !fresh.is_empty() {
+                        let n = fresh_total.fetch_add(fresh.len() as u64, Ordering::Relaxed);
+                        if let Some(h) = hard_cap {
+                            if n > h {
+                                overflow.store(true, Ordering::Relaxed);
+                            }
                         }
                     }
                     if !fresh.is_empty() || !out.viol.is_empty() {
@@ -183,6 +205,11 @@ pub fn bfs<G: Graph>(
                 (*idx, edges, trans, impl_steps)
             })
             .collect();
+        stats.states += leaf_states.load(Ordering::Relaxed);
+        if overflow.load(Ordering::Relaxed) {
+            stats.cap_hit = Some(format!("state cap exceeded while expanding depth {} (part of that level was not expanded)", depth));
+        }
+        let leaf_count = leaf_states.load(Ordering::Relaxed) as usize;
 
         let mut next: Vec<(usize, G::State)> = Vec::new();
         for (idx, edges, trans, impl_steps) in results {
@@ -218,9 +245,15 @@ pub fn bfs<G: Graph>(
             }
         }
         depth += 1;
-        if !next.is_empty() {
+        if !next.is_empty() || leaf_count > 0 {
             stats.max_depth = depth;
-            stats.level_sizes.push(next.len());
+            stats.level_sizes.push(next.len() + leaf_count);
+        }
+        if last_level && stats.cap_hit.is_none() && leaf_count > 0 {
+            stats.cap_hit = Some(format!("depth bound {} reached with {} frontier states", depth, leaf_count));
+        }
+        if overflow.load(Ordering::Relaxed) {
+            break;
         }
         frontier = next;
     }
